@@ -98,6 +98,12 @@ def must_reject(r, first: bool = True) -> str | None:
         if root.has_error or len([c for c in root.named_children if c.type != "comment"]) != 1:
             return "invalid-value"
     if path.startswith("@"):
+        # a selector that names more let layers than enclose the target (counted on the text by
+        # tree-sitter, wrappers looked through: an upper bound on the addressable layers) cannot be applied
+        depth = len(path) - len(path.lstrip("@"))
+        chain = None if cstread.ts_parse(r.before_text).has_error else cstread.let_chain(r.before_text)
+        if chain and depth > len(chain):
+            return "missing-scope-layer"
         return None
     if first and cstread.ts_parse(r.before_text).has_error:
         return "erroneous-source"  # (only the text that was parsed counts; a later text is C05's output-parses)
